@@ -23,6 +23,7 @@ def main():
         write_inconclusive(ctx, 'internal error: ' + traceback.format_exc()[-2500:]); rc = 2
     finally:
         if ctx.native is not None: ctx.native.close()
+        for n in ctx.natives.values(): n.close()
     sys.exit(rc)
 
 
